@@ -109,11 +109,8 @@ class IPv4FlowSpec(NLRI):
         prefix_len = ord(data[0:1])
         octet_len = int(math.ceil(prefix_len / 8))
         tmp = data[1:octet_len + 1]
-        if isinstance(tmp[0], int):
-            prefix_data = [i for i in tmp]
-        else:
-            prefix_data = [ord(i) for i in tmp]
-        prefix_data = prefix_data + list(str(0)) * 4
+        # a /0 prefix has no address octets at all
+        prefix_data = list(bytearray(tmp)) + [0] * 4
         prefix = "%s.%s.%s.%s" % (tuple(prefix_data[0:4])) + '/' + str(prefix_len)
         return prefix, octet_len + 1
 
